@@ -28,7 +28,7 @@ pub fn exec(case: &str) -> String {
   let canon_tree = tree.canonicalize().unwrap();
   let r = mech::read_mech_source_file(&tree.join(&root));
   let obs = match r {
-    Ok(mech_core::MechSourceCode::String(s)) => format!("ok:{}", hex(&s)),
+    Ok(mech_core::MechSourceCode::String(s)) => format!("ok:{}", hexs(&s)),
     Ok(_) => "err:other:notstring".to_string(),
     Err(e) => {
       let msg = e.kind_message();
@@ -41,8 +41,8 @@ pub fn exec(case: &str) -> String {
         let pre2 = format!("{}/", canon_tree.display());
         if let Some(r) = name.strip_prefix(&pre1) { name = r.to_string(); }
         else if let Some(r) = name.strip_prefix(&pre2) { name = r.to_string(); }
-        format!("err:missing:{}", hex(&name))
-      } else { format!("err:other:{}", hex(&msg)) }
+        format!("err:missing:{}", hexs(&name))
+      } else { format!("err:other:{}", hexs(&msg)) }
     }
   };
   let _ = std::fs::remove_dir_all(&base);
@@ -120,7 +120,7 @@ fn fence_block(inner: Vec<String>, rng: &mut Rng, sink: &mut Sink) -> Vec<String
 }
 
 fn render_case(nfiles: usize, edges: &[(usize, usize)], rng: &mut Rng, sink: &mut Sink, rich: bool) -> String {
-  let mut parts = vec!["include".to_string(), hex("a.mec")];
+  let mut parts = vec!["include".to_string(), hexs("a.mec")];
   for i in 0..nfiles {
     let me = FILES[i];
     let dir = &me[..me.len() - 1];
@@ -144,7 +144,7 @@ fn render_case(nfiles: usize, edges: &[(usize, usize)], rng: &mut Rng, sink: &mu
     let nl = if rich && rng.chance(1, 4) { "\r\n" } else { "\n" };
     let mut content = lines.join(nl);
     if !(rich && rng.chance(1, 3)) { content.push_str("\n"); } else { sink.hit("no-trailing-newline"); }
-    parts.push(format!("{}={}", hex(&me.join("/")), hex(&content)));
+    parts.push(format!("{}={}", hexs(&me.join("/")), hexs(&content)));
   }
   parts.join("\t")
 }
@@ -180,8 +180,8 @@ pub fn generate(seed: u64, thorough: bool, sink: &mut Sink) -> Vec<String> {
     sink.hit(&format!("random-graph-n{}", n));
   }
   // root missing / root in a subdirectory
-  cases.push(format!("include\t{}\t{}={}", hex("zz.mec"), hex("a.mec"), hex("x\n")));
-  cases.push(format!("include\t{}\t{}={}\t{}={}", hex("s/c.mec"), hex("s/c.mec"), hex("{../a.mec}\n{t/d.mec}\n"), hex("a.mec"), hex("A\n")));
+  cases.push(format!("include\t{}\t{}={}", hexs("zz.mec"), hexs("a.mec"), hexs("x\n")));
+  cases.push(format!("include\t{}\t{}={}\t{}={}", hexs("s/c.mec"), hexs("s/c.mec"), hexs("{../a.mec}\n{t/d.mec}\n"), hexs("a.mec"), hexs("A\n")));
   for c in cases.iter().take(3) { sink.sample(c.clone()); }
   cases
 }
